@@ -199,7 +199,8 @@ let run_mux (bops : bop list) (script : sink_ev list) (ops : string list list) =
           let (m', r) = step !m o in
           m := m';
           print_mux_result kind r;
-          (match r with RPanic _ -> stop := true | _ -> ());
+          (match r with RPanic _ -> stop := true
+                      | _ -> Printf.printf "s %s\n" (hex_of_n (len (sink_of !m))));
           (* consuming finishes end the muxer's life *)
           (match o with FIN when kind >= 2 -> stop := true | _ -> ())
         end) ops;
@@ -263,30 +264,98 @@ let op_of_words w = match w with
 let pr_checks id l =
   Printf.printf "chk %s %s\n" id (String.concat " " (List.map (fun (n, b) -> n ^ "=" ^ s01 b) l))
 
-let check_mux id (bops : bop list) (ops : string list list) (blk : string list) =
+let merr_of_words (w : string list) : merr =
+  let z = N0 in
+  match w with
+  | "MissingVideoConfig" :: _ -> MissingVideoConfig
+  | "Io" :: "InvalidData" :: _ -> MIo IoInvalidData
+  | "Io" :: "InvalidInput" :: _ -> MIo IoInvalidInput
+  | "Io" :: "Other" :: _ -> MIo IoOther
+  | "Io" :: "WriteZero" :: _ -> MIo IoWriteZero
+  | "Io" :: _ -> MIo (IoInjected z)
+  | "AlreadyFinished" :: _ -> AlreadyFinished
+  | "NegativeVideoPts" :: _ -> NegativeVideoPts z | "NegativeVideoDts" :: _ -> NegativeVideoDts z
+  | "InvalidVideoPts" :: _ -> InvalidVideoPts z | "InvalidVideoDts" :: _ -> InvalidVideoDts z
+  | "NegativeAudioPts" :: _ -> NegativeAudioPts z | "InvalidAudioPts" :: _ -> InvalidAudioPts z
+  | "AudioNotConfigured" :: _ -> AudioNotConfigured
+  | "EmptyAudioFrame" :: _ -> EmptyAudioFrame z | "EmptyVideoFrame" :: _ -> EmptyVideoFrame z
+  | "NonIncreasingVideoPts" :: _ -> NonIncreasingVideoPts z
+  | "DecreasingAudioPts" :: _ -> DecreasingAudioPts z
+  | "AudioBeforeFirstVideo" :: _ -> AudioBeforeFirstVideo
+  | "FirstVideoFrameMustBeKeyframe" :: _ -> FirstVideoFrameMustBeKeyframe
+  | "FirstVideoFrameMissingSpsPps" :: _ -> FirstVideoFrameMissingSpsPps
+  | "FirstAv1FrameMissingSequenceHeader" :: _ -> FirstAv1FrameMissingSequenceHeader
+  | "FirstVp9FrameMissingSequenceHeader" :: _ -> FirstVp9FrameMissingSequenceHeader
+  | "InvalidAdtsDetailed" :: _ -> MInvalidAdtsDetailed (z, FrameTooShort)
+  | "InvalidOpusPacket" :: _ -> MInvalidOpusPacket z
+  | "NonIncreasingDts" :: _ -> NonIncreasingDts z
+  | _ -> failwith ("unknown error kind: " ^ String.concat " " w)
+
+let outcome_of_line (l : string) : outcome option =
+  match words l with
+  | "r" :: "ok" :: _ | "r" :: "stats" :: _ -> Some OOk
+  | "r" :: "err" :: w -> (try Some (OErr (err_names (merr_of_words w))) with Failure _ -> Some (OErr []))
+  | "r" :: "panic" :: _ | "r" :: "timeout" :: _ | "r" :: "crash" :: _ -> Some OPanic
+  | _ -> None
+
+let rec firstn k l = if k = 0 then [] else match l with [] -> [] | x :: t -> x :: firstn (k-1) t
+
+let check_mux id (bops : bop list) (script : sink_ev list) (ops : string list list) (blk : string list) =
   match blk with
   | "build ok" :: rest ->
       let cls = List.filter_map class_of_line rest in
+      let outs = List.filter_map outcome_of_line rest in
+      let lens = List.filter_map (fun l -> match words l with ["s"; h] -> Some (n_of_hex h) | _ -> None) rest in
       let sink = List.fold_left (fun acc l -> match words l with ["sink"; h] -> bytes_of_hex h | _ -> acc) [] rest in
       let b = run_builder bops in
+      let kinds = List.map (fun w -> match w with ["fin"; k] -> int_of_string k | _ -> -1) ops in
       let ops = List.map op_of_words ops in
       (* the implementation stops at a consuming finish or a panic: align *)
-      let rec firstn k l = if k = 0 then [] else match l with [] -> [] | x :: t -> x :: firstn (k-1) t in
       let ops = firstn (List.length cls) ops in
+      (* statistics of the first successful finish, when that entry point returns them *)
+      let stats =
+        let rec go ls ks = match ls, ks with
+          | l :: lt, k :: kt ->
+              (match words l with
+               | ["r"; "stats"; v; a; d; bts] -> Some (((n_of_hex v, n_of_hex a), n_of_hex d), n_of_hex bts)
+               | "r" :: "ok" :: _ when k >= 0 -> None
+               | _ -> go lt kt)
+          | _, _ -> None in
+        go (List.filter (fun l -> String.length l > 2 && String.sub l 0 2 = "r ") rest) kinds in
       pr_checks id [
         ("C01", check_C01 b ops cls sink);
         ("C02", check_C02_mux b ops cls sink);
         ("C03", check_C03 b ops cls sink);
+        ("C04", check_C04 b ops outs);
+        ("C06", check_C06 b ops cls lens stats (script = []));
+        ("C09", check_C09 b ops cls sink);
+        ("C15", check_C15 b ops cls sink);
       ]
   | _ -> pr_checks id []
 
-let check_frag id (blk : string list) =
-  let ok = ref true in
+let check_frag id (ops : string list list) (blk : string list) =
+  let ok2 = ref true in
   List.iter (fun l -> match words l with
-    | ["r"; "seg"; h] when h <> "none" -> if not (check_segment_structure (bytes_of_hex h)) then ok := false
-    | ["r"; "bytes"; h] -> if not (check_init_structure (bytes_of_hex h)) then ok := false
+    | ["r"; "seg"; h] when h <> "none" -> if not (check_segment_structure (bytes_of_hex h)) then ok2 := false
+    | ["r"; "bytes"; h] -> if not (check_init_structure (bytes_of_hex h)) then ok2 := false
     | _ -> ()) blk;
-  pr_checks id [("C02", !ok)]
+  match blk with
+  | "build ok" :: rest ->
+      let fops = List.map (fun w -> match w with
+        | ["fw"; p; t; d; s] -> FWrite (n_of_hex p, n_of_hex t, bytes_of_hex d, b01 s)
+        | ["ff"] -> FFlush | ["fr"] -> FReady | ["fd"] -> FDur | ["fi"] -> FInit
+        | _ -> failwith "bad fop") ops in
+      let outs = List.filter_map (fun l -> match words l with
+        | ["r"; "ok"] -> Some FoOk
+        | "r" :: "err" :: _ -> Some FoErr
+        | ["r"; "seg"; "none"] -> Some (FoSeg None)
+        | ["r"; "seg"; h] -> Some (FoSeg (Some (bytes_of_hex h)))
+        | ["r"; "bytes"; h] -> Some (FoInit (bytes_of_hex h))
+        | "r" :: _ -> Some FoOther
+        | _ -> None) rest in
+      let fops = firstn (List.length outs) fops in
+      pr_checks id [("C02", !ok2); ("C10", check_C10 fops outs); ("C11", check_C11 fops outs)]
+  | _ -> pr_checks id [("C02", !ok2)]
 
 let check_fn id name args (blk : string list) =
   let r = match blk with [l] when String.length l >= 2 -> String.sub l 2 (String.length l - 2) | _ -> "" in
@@ -328,8 +397,8 @@ let () =
       | ["end"] ->
           if check then begin
             (match !cur_kind with
-             | "mux" -> check_mux !cur_id (List.rev !bops) (List.rev !ops) (blk !cur_id)
-             | "frag" -> check_frag !cur_id (blk !cur_id)
+             | "mux" -> check_mux !cur_id (List.rev !bops) !script (List.rev !ops) (blk !cur_id)
+             | "frag" -> check_frag !cur_id (List.rev !ops) (blk !cur_id)
              | _ -> ())
           end else begin
           Printf.printf "case %s\n" !cur_id;
